@@ -12,7 +12,7 @@ RULE = ("every table of the bound (group column over <= 3 keys in every order, s
         "literal compositions of the reference pc / histogram; non-trivial = at least one group with two members")
 ASSUMPTIONS = ["float tolerance 1e-12, NaN-equal, inf-equal", "missing cells are kept out of this alphabet (C02 covers them)",
                "pcDelta_grouped(bins=0) may return a Series or a one-column frame: only the per-group values (sorted group order) are compared"]
-REQUIRED_CLASSES = {"all": ["singleton-group", "unsorted-keys", "non-uniform-weights", "all-groups-singleton", "bins=0-form", "two-features", "two-grouping-columns", "grouping-keys-that-collide-when-joined"]}
+REQUIRED_CLASSES = {"all": ["singleton-group", "unsorted-keys", "non-uniform-weights", "all-groups-singleton", "bins=0-form", "two-features", "two-grouping-columns", "grouping-keys-that-collide-when-joined", "missing-feature-cells"]}
 MIN_OUTCOMES = 10
 SINGLE_THREAD_RAPIDFUZZ = True
 
@@ -39,6 +39,13 @@ def spaces(tier):
                     for f2 in itertools.product(range(2), repeat=n):
                         yield ("t2", g, f, f2)
 
+    def gen_missing():
+        for n in range(2, (4 if q else 5) + 1):
+            for g in itertools.product(range(2), repeat=n):
+                for f in itertools.product(range(3), repeat=n):
+                    if 2 in f:
+                        yield ("tm", g, f)
+
     def gen_two_by():
         for n in range(2, (3 if q else 4) + 1):
             for g in itertools.product(range(2), repeat=n):
@@ -49,6 +56,7 @@ def spaces(tier):
     return [
         Space("one-group-column-one-feature", gen_one, "all tables of 2..4 (quick) / 2..5 (thorough) rows, group key in 3 keys, feature in 2 sequences; keys spelled as strings and ints; 4 weightings; 3 bases; bins in {edges, 0}", shards=64),
         Space("two-feature-columns", gen_two_feat, "all tables of 2..3(4) rows, 2 group keys, two binary feature columns (joint statistics)"),
+        Space("numeric-feature-with-missing-cells", gen_missing, "all tables of 2..4(5) rows, 2 group keys, a numeric feature column over {1.5, 2.5, missing} with at least one missing cell; `on` given as a one-element list (joint form: a missing cell is one value)"),
         Space("two-grouping-columns", gen_two_by, "all tables of 2..3(4) rows, two binary grouping columns, one feature"),
     ]
 
@@ -115,6 +123,10 @@ def check_case(case, acc):
         _, g, f, f2 = case
         acc.cls("two-features")
         _check_table(acc, case, "str", [KEYS["str"][i] for i in g], None, [FEAT[i] for i in f], [FEAT2[i] for i in f2])
+    elif kind == "tm":
+        _, g, f = case
+        acc.cls("missing-feature-cells")
+        _check_missing(acc, case, [KEYS["str"][i] for i in g], [(1.5, 2.5, None)[i] for i in f])
     elif kind == "tb":
         _, g, h, f = case
         acc.cls("two-grouping-columns")
@@ -124,6 +136,38 @@ def check_case(case, acc):
         _check_table(acc, case, "str", [("d_1", "d")[i] for i in g], [("2", "1_2")[i] for i in h], [FEAT[i] for i in f], None)
     else:
         raise HarnessError("unknown case %r" % (case,))
+
+
+def _check_missing(acc, case, gcol, fcol):
+    """joint form (`on` is a list): a missing cell is one distinct empty value, within and across groups"""
+    import numpy as np
+    import pandas as pd
+    import pyrepseq
+    n = len(gcol)
+    df = pd.DataFrame({"g": gcol, "num": [np.nan if v is None else v for v in fcol]})
+    gs = groups_of(gcol)
+    names = sorted(gs)
+    rows = list(fcol)
+    exp = ref_conditional(gcol, rows, None)
+    r = acc.call(pyrepseq.pc_conditional, df, "g", ["num"])
+    if raised(r) or not feq(r, exp):
+        acc.fail("pc_conditional/missing-feature-cells", case, exp, r)
+        return
+    acc.ok(("pccm", round(exp, 12) if exp == exp else None), nontrivial=exp == exp)
+    r = acc.call(pyrepseq.pc_grouped_cross, df, "g", ["num"])
+    expm = [[NAN if a == b else float(ref_pc2([rows[i] for i in gs[a]], [rows[i] for i in gs[b]])) for b in names] for a in names]
+    if not _cmp_matrix(r, expm):
+        acc.fail("pc_grouped_cross/missing-feature-cells", case, expm, r if raised(r) else _vals(r).tolist())
+        return
+    acc.ok()
+    pc_all = ref_pc(rows)
+    r = acc.call(pyrepseq.renyi2_entropy, df, ["num"], by="g")
+    e = exp
+    e = NAN if e != e else (math.inf if e == 0 else -math.log(e) / math.log(2.0))
+    if raised(r) or not feq(r, e):
+        acc.fail("renyi2_entropy/conditional/missing-feature-cells", case, e, r)
+        return
+    acc.ok()
 
 
 def _check_table(acc, case, spell, gcol, hcol, fcol, f2col):
